@@ -198,7 +198,7 @@ fn jitter(x: u64) {
 type Touched = Vec<(usize, usize, usize)>;
 
 #[allow(clippy::too_many_arguments)]
-fn drive<I, J>(out: &mut Out, op: &str, mut it: I, al: usize, vl: usize, opat: &str, ipat: &str, nthreads: usize, seed: u64) -> (usize, Vec<Option<usize>>, Vec<Touched>)
+fn drive<I, J>(out: &mut Out, op: &str, it: I, al: usize, vl: usize, opat: &str, ipat: &str, nthreads: usize, seed: u64) -> (usize, Vec<Option<usize>>, Vec<Touched>)
 where
     I: ExactSizeDoubleEndedIterator<Item = J> + Send + Sync,
     J: ExactSizeDoubleEndedIterator<Item = &'static mut u64> + Send,
@@ -211,10 +211,24 @@ where
     });
     if l1 != al || l2 != al { out.oracle_fail(&format!("{op}: len() through a shared reference on other threads gave {l1}, {l2}, expected {al}")); }
     let mut rng = Rng(seed);
+    let mut it = Some(it);
     let (mut f, mut b) = (0usize, 0usize);
     let mut yielded: Vec<Option<usize>> = Vec::new();
     let mut work: Vec<Vec<(usize, J)>> = (0..nthreads).map(|_| Vec::new()).collect();
     for c in opat.chars() {
+        if c == 'E' {
+            // internal iteration over the rest (`for_each` = `fold`, which an iterator may override)
+            // (by value: `fold` takes `self`; through `&mut` the provided definition would be used)
+            if let Some(whole) = it.take() {
+                whole.for_each(|inner| {
+                    yielded.push(Some(f));
+                    work[rng.below(nthreads)].push((f, inner));
+                    f += 1;
+                });
+            }
+            continue;
+        }
+        let Some(it) = it.as_mut() else { yielded.push(None); continue };
         let (back, d) = pat_step(c);
         let v = match (back, d) { (false, 0) => it.next(), (true, 0) => it.next_back(), (false, d) => it.nth(d), (true, d) => it.nth_back(d) };
         match v {
@@ -242,6 +256,16 @@ where
                     let pat: Vec<char> = ipat.chars().collect();
                     let mut i = 0;
                     loop {
+                        if pat[i % pat.len()] == 'E' {
+                            // the rest of this vector through internal iteration
+                            inner.for_each(|e| {
+                                jitter(*e);
+                                *e = g(k, f, *e);
+                                touched.push((k, f, e as *mut u64 as usize));
+                                f += 1;
+                            });
+                            break;
+                        }
                         let (back, d) = pat_step(pat[i % pat.len()]);
                         i += 1;
                         let e = match (back, d) { (false, 0) => inner.next(), (true, 0) => inner.next_back(), (false, d) => inner.nth(d), (true, d) => inner.nth_back(d) };
@@ -341,6 +365,10 @@ fn positions(vl: usize, ipat: &str) -> Vec<usize> {
     let (mut f, mut b, mut i) = (0usize, 0usize, 0usize);
     let mut res = Vec::new();
     loop {
+        if pat[i % pat.len()] == 'E' {
+            res.extend(f..vl - b);
+            break;
+        }
         let (back, d) = pat_step(pat[i % pat.len()]);
         i += 1;
         if d >= vl - f - b { break; }
@@ -351,7 +379,10 @@ fn positions(vl: usize, ipat: &str) -> Vec<usize> {
 }
 
 fn pattern(rng: &mut Rng, n: usize) -> String {
-    let kind = rng.below(8);
+    let kind = rng.below(10);
+    // internal iteration: `for_each` over everything / after a few single steps
+    if kind == 8 { return "E".to_string(); }
+    if kind == 9 { let k = rng.below(n.min(3) + 1); return (0..k).map(|_| if rng.coin() { 'F' } else { 'B' }).chain(['E']).collect(); }
     (0..n).map(|i| match kind {
         0 => 'F', 1 => 'B', 2 => if i % 2 == 0 { 'F' } else { 'B' }, 3 => if i == 0 { 'B' } else { 'F' },
         4 => if rng.coin() { 'F' } else { 'B' },
@@ -392,7 +423,7 @@ pub fn run_c17(out: &mut Out, rng: &mut Rng, tier: Tier) -> String {
     }
     format!(
         "type level: in-process auto-trait probes (16: outer / inner iterator x rows / cols x the four (Send, Sync) classes of element types u64, Cell<u32>, a Sync-but-not-Send struct, Rc<u8>) and {} compile probes (cargo check of one client program each under /verif/probes: need_send / need_sync bounds, moving the iterator into a scoped thread, sharing it with a scoped thread, cloning it, touching the matrix while the iterator is alive), verdict and diagnostic code compared with the model and with the property's rule; \
-         run time: {cases} threaded cases: shapes 0..5 x 0..5 plus 2x9, 9x2, 16x3, 3x16, 33x64, 5x200, 120x7, both orders, rows and columns, outer call patterns of next / next_back / nth(d) / nth_back(d) (all-front, all-back, alternating, back-then-front, random, every-other-one from the front / from the back, mixed steps and jumps of 1..3 from both ends; mostly running past exhaustion, a quarter partial), inner patterns likewise, 1..16 threads (more and fewer vectors than threads) with the vectors assigned to threads by the run's PRNG, per-element jitter, a barrier start, the outer iterator itself shared (len) with and then moved to other threads. \
+         run time: {cases} threaded cases: shapes 0..5 x 0..5 plus 2x9, 9x2, 16x3, 3x16, 33x64, 5x200, 120x7, both orders, rows and columns, outer call patterns of next / next_back / nth(d) / nth_back(d) (all-front, all-back, alternating, back-then-front, random, every-other-one from the front / from the back, mixed steps and jumps of 1..3 from both ends, for_each over the rest (internal iteration); mostly running past exhaustion, a quarter partial), inner patterns likewise, 1..16 threads (more and fewer vectors than threads) with the vectors assigned to threads by the run's PRNG, per-element jitter, a barrier start, the outer iterator itself shared (len) with and then moved to other threads. \
          Oracle: ownership map thread -> addresses pairwise disjoint, every reference at the address of the position it stands for, no vector yielded twice, final matrix equal to the sequential run through indexing. A case = one probe group or one threaded run",
         2 * 2 * (4 * 4 + 2)
     )
